@@ -134,6 +134,7 @@ class pkcs7(blockiterator):
         return m+(bytes([q])*q)
     # remove padding:
     def remove(self,c):
+        if len(c)==0: raise PaddingError(c)
         q = c[-1]
         if q>self.blocklen or (c[-q:]!=bytes([q])*q):
             raise PaddingError(c)
@@ -156,6 +157,7 @@ class X923(blockiterator):
         return r
     # remove padding:
     def remove(self,c):
+        if len(c)==0: raise PaddingError(c)
         q = c[-1]
         if q<1 or q>self.blocklen or (c[-q:-1]!=b'\0'*(q-1)):
             raise PaddingError(c)
